@@ -113,6 +113,8 @@ type world struct {
 	gov      sdk.AccAddress
 	sink     sdk.AccAddress
 	ethSink  gethcommon.Address
+	codeID   uint64
+	cases    int
 }
 
 func repoDir() string {
@@ -125,12 +127,43 @@ func repoDir() string {
 var reflectCode []byte
 var worldCounter int
 
+// newWorld starts a fresh chain and stores the reflect contract code once; beginCase gives every case its own
+// accounts and contract instance (the wasm VM of a chain is never released, so a chain serves a batch of cases).
 func newWorld(t *testing.T) *world {
-	worldCounter++
 	w := &world{c: NewChain(nil)}
 	c := w.c
 	c.BeginBlock(5 * time.Second)
 	ctx := c.Ctx()
+	w.sink = sdk.AccAddress([]byte("c02-sink____________"))
+	w.ethSink = gethcommon.HexToAddress("0x00000000000000000000000000000000000C0002")
+	w.gov = authtypes.NewModuleAddress(govtypes.ModuleName)
+	if reflectCode == nil {
+		bz, err := os.ReadFile(repoDir() + "/x/devgas/v1/keeper/testdata/reflect.wasm")
+		if err != nil {
+			t.Fatal(err)
+		}
+		reflectCode = bz
+	}
+	uploader := sdk.AccAddress([]byte("c02-uploader________"))
+	store := &wasmtypes.MsgStoreCode{Sender: uploader.String(), WASMByteCode: reflectCode}
+	rsp, err := c.App.MsgServiceRouter().Handler(store)(ctx, store)
+	if err != nil {
+		t.Fatal(err)
+	}
+	var sr wasmtypes.MsgStoreCodeResponse
+	_ = c.App.AppCodec().Unmarshal(rsp.Data, &sr)
+	w.codeID = sr.CodeID
+	c.EndBlock()
+	return w
+}
+
+func (w *world) beginCase(t *testing.T) {
+	worldCounter++
+	w.cases++
+	c := w.c
+	c.BeginBlock(5 * time.Second)
+	ctx := c.Ctx()
+	w.users, w.eths = nil, nil
 	for i := 0; i < nUsers; i++ {
 		k := secp256k1.GenPrivKeyFromSecret([]byte(fmt.Sprintf("c02-user-%d-%d", worldCounter, i)))
 		w.users = append(w.users, k)
@@ -145,26 +178,9 @@ func newWorld(t *testing.T) *world {
 			t.Fatal(err)
 		}
 	}
-	w.sink = sdk.AccAddress([]byte("c02-sink____________"))
-	w.ethSink = gethcommon.HexToAddress("0x00000000000000000000000000000000000C0002")
-	w.gov = authtypes.NewModuleAddress(govtypes.ModuleName)
-	if reflectCode == nil {
-		bz, err := os.ReadFile(repoDir() + "/x/devgas/v1/keeper/testdata/reflect.wasm")
-		if err != nil {
-			t.Fatal(err)
-		}
-		reflectCode = bz
-	}
 	owner := w.addr(0)
-	store := &wasmtypes.MsgStoreCode{Sender: owner.String(), WASMByteCode: reflectCode}
-	rsp, err := c.App.MsgServiceRouter().Handler(store)(ctx, store)
-	if err != nil {
-		t.Fatal(err)
-	}
-	var sr wasmtypes.MsgStoreCodeResponse
-	_ = c.App.AppCodec().Unmarshal(rsp.Data, &sr)
-	inst := &wasmtypes.MsgInstantiateContract{Sender: owner.String(), CodeID: sr.CodeID, Label: "reflect", Msg: []byte(`{}`)}
-	rsp, err = c.App.MsgServiceRouter().Handler(inst)(ctx, inst)
+	inst := &wasmtypes.MsgInstantiateContract{Sender: owner.String(), CodeID: w.codeID, Label: fmt.Sprintf("reflect-%d", worldCounter), Msg: []byte(`{}`)}
+	rsp, err := c.App.MsgServiceRouter().Handler(inst)(ctx, inst)
 	if err != nil {
 		t.Fatal(err)
 	}
@@ -175,7 +191,6 @@ func newWorld(t *testing.T) *world {
 		t.Fatal(err)
 	}
 	c.EndBlock()
-	return w
 }
 
 func (w *world) addr(id int) sdk.AccAddress {
@@ -409,8 +424,14 @@ func (w *world) runTx(tx txIn) txObs {
 	return o
 }
 
-func runCase(t *testing.T, ci caseIn) []txObs {
-	w := newWorld(t)
+var shared *world
+
+func runCase(t *testing.T, ci caseIn, fresh bool) []txObs {
+	if shared == nil || fresh || shared.cases >= 40 {
+		shared = newWorld(t)
+	}
+	w := shared
+	w.beginCase(t)
 	var obs []txObs
 	for _, tx := range ci.Txs {
 		obs = append(obs, w.runTx(tx))
@@ -676,7 +697,7 @@ func TestC02(t *testing.T) {
 	em := NewEmitter(t, cfg.Out)
 	defer em.Close()
 	run := func(ci caseIn) {
-		obs := runCase(t, ci)
+		obs := runCase(t, ci, cfg.Replay != "")
 		em.Emit(ci, obs, nil)
 		if os.Getenv("C02_DEBUG") != "" {
 			for i, o := range obs {
